@@ -104,6 +104,8 @@ class Concretizer:
             return {'$default': True}
         if k == 'numstr':
             return self.numstr(name)
+        if k == 'const':
+            return self.value(typ[1])
         return {'$opaque': f'{name}:{typ[1] if len(typ) > 1 else k}'}
 
     def numstr(self, name):
